@@ -248,6 +248,42 @@ def c17_lemmas():
                              "each test sees run-level + its own tags only", l4_tfr_two_tests, ["stale", "gn", "ln1", "ln2"],
                              [tags_mod, real]))
 
+    def l6_tfr_inductive_step(w):
+        """One step from an ARBITRARY forwarder state satisfying the invariant
+        Inv: buffered run-level pair (G0, G1) disjoint and the reporter's run-level tags == G0 (the pair applied to the
+        empty set) - hence histories of any length over any tags, for one forwarder."""
+        G0, G1, n, g, ln, lg = w.var("G0"), w.var("G1"), w.var("n"), w.var("g"), w.var("ln"), w.var("lg")
+        w.assume(w.disjoint(G0, G1))
+        w.assume(w.disjoint(n, g))
+        w.assume(w.disjoint(ln, lg))
+        target = Seen()
+        tfr = real.ThreadsafeForwardingResult(target, threading.Semaphore(1))
+        tfr.startTestRun()
+        # construct the state directly (drive the unit, skip the history that led here)
+        tfr._global_tags = (G0.copy(), G1.copy())
+        tfr._tags = tags_mod.TagContext()
+        tfr._tags.change_tags(G0.copy(), w.empty())
+        # step 1: a run-level tags() call preserves the invariant
+        tfr.tags(n, g)
+        N0, N1 = tfr._global_tags
+        inv = [w.disjoint(N0, N1), w.same(tfr.current_tags, (G0 | n) - g), w.same(tfr.current_tags, (w.empty() | N0) - N1)]
+        # step 2: a whole test bracket from that state
+        test = PlaceHolder("t")
+        tfr.startTest(test)
+        tfr.tags(ln, lg)
+        at_outcome = tfr.current_tags
+        tfr.addSuccess(test)
+        tfr.stopTest(test)
+        N0b, N1b = tfr._global_tags
+        props = inv + [w.same(target.at_outcome, at_outcome), w.same(at_outcome, (((G0 | n) - g) | ln) - lg),
+                       w.same(tfr.current_tags, (G0 | n) - g), w.same(N0b, N0), w.same(N1b, N1),
+                       w.is_empty(target.current_tags)]
+        return w.all(props)
+    out.append(run_set_lemma("C17.L6 ThreadsafeForwardingResult inductive step from an arbitrary state satisfying the invariant "
+                             "(buffered pair disjoint, reporter's run-level tags = buffered additions): a run-level tags() call and a "
+                             "whole test bracket preserve it and the target sees the reporter's tags at the outcome",
+                             l6_tfr_inductive_step, ["G0", "G1", "n", "g", "ln", "lg"], [tags_mod, real]))
+
     def l5_testresult_scoping(w):
         g, l1 = w.var("g"), w.var("l1")
         r = real.TestResult()
@@ -461,6 +497,32 @@ def c18_lemmas():
                              "arbitrary route code and test id: exactly one sink, chosen by the documented precedence; the other "
                              "fields are the identical objects; a consuming rule strips exactly the first segment",
                              l1_precedence, ["k1", "k2", "r", "t", "idk"]))
+
+    def l5_nested_pushpop(w, path):
+        m = w.b.m
+        c1, c2, orig = w.var("c1"), w.var("c2"), w.var("orig")
+        path.assume(m.Not(m.Contains(c1.v, m.StringVal("/"))))
+        path.assume(m.Not(m.Contains(c2.v, m.StringVal("/"))))
+        path.assume(m.Length(orig.v) > 0)
+        q1, q2 = _Q(), _Q()
+        real.StreamToQueue(q1, c1).status(test_id="t", route_code=orig)          # inner worker
+        ev = {k: v for k, v in q1.items[0].items() if k != "event"}
+        real.StreamToQueue(q2, c2).status(**ev)                                  # outer multiplexer
+        ev = {k: v for k, v in q2.items[0].items() if k != "event"}
+        sink = _StrSink()
+        inner = real.StreamResultRouter()
+        inner._route_code_prefixes, inner._test_ids = Z.ZMap(), Z.ZMap()
+        inner.add_rule(sink, "route_code_prefix", route_prefix=c1, consume_route=True)
+        outer = real.StreamResultRouter()
+        outer._route_code_prefixes, outer._test_ids = Z.ZMap(), Z.ZMap()
+        outer.add_rule(inner, "route_code_prefix", route_prefix=c2, consume_route=True)
+        outer.status(**ev)
+        if len(sink.got) != 1 or sink.got[0]["route_code"] is None:
+            return False
+        return sink.got[0]["route_code"].v == orig.v
+    out.append(run_str_lemma("C18.L5 two nested StreamToQueue prefixes are popped in inverse order by two nested consuming routers, "
+                             "for all codes without '/' and every non-empty original route code", l5_nested_pushpop,
+                             ["c1", "c2", "orig"]))
 
     def l_slash_rejected(w, path):
         m = w.b.m
